@@ -68,11 +68,13 @@ PROPS = {
         "assumptions": COMMON_ASSUMPTIONS + ["the vAMM is driven through its public execute/query entry points on cosmwasm-std mock dependencies"],
     },
     "C15": {
+        "lean_modules": ["Perp.Props.C15", "Perp.Props.EngineGuards"],
         "runs": lambda tier, seed: [vamm_run(tier, seed)] + world_runs(tier, seed),
         "rule": VAMM_RULE,
         "assumptions": COMMON_ASSUMPTIONS,
     },
     "C17": {
+        "lean_modules": ["Perp.Props.C17", "Perp.Props.EngineGuards"],
         "runs": lambda tier, seed: [vamm_run(tier, seed)] + world_runs(tier, seed),
         "rule": VAMM_RULE + "; for every swap the harness also runs the same swap without a limit on a copy of the state (twin) to separate limit rejections from other rejections",
         "assumptions": COMMON_ASSUMPTIONS,
@@ -99,7 +101,7 @@ PROPS = {
         "trusted_base": [],
     },
     "C03": {
-        "lean_modules": ["Perp.Props.Dispatch"],
+        "lean_modules": ["Perp.Props.Dispatch", "Perp.Props.EngineMoney"],
         "runs": lambda tier, seed: world_runs(tier, seed),
         "rule": WORLD_RULE, "assumptions": WORLD_ASSUMPTIONS,
     },
@@ -109,67 +111,67 @@ PROPS = {
         "rule": WORLD_RULE, "assumptions": WORLD_ASSUMPTIONS,
     },
     "C09": {
-        "lean_modules": ["Perp.Props.VammGuards", "Perp.Props.C18F"],
+        "lean_modules": ["Perp.Props.VammGuards", "Perp.Props.C18F", "Perp.Props.EngineGuards"],
         "runs": lambda tier, seed: world_runs(tier, seed) + [vamm_run(tier, seed, 600, 10000), feed_run(tier, seed, 300, 5000)],
         "rule": WORLD_RULE, "assumptions": WORLD_ASSUMPTIONS,
     },
     "C11": {
-        "lean_modules": ["Perp.Props.VammGuards"],
+        "lean_modules": ["Perp.Props.VammGuards", "Perp.Props.EngineMoney"],
         "runs": lambda tier, seed: world_runs(tier, seed) + [vamm_run(tier, seed, 600, 10000)],
         "rule": WORLD_RULE, "assumptions": WORLD_ASSUMPTIONS,
     },
     "C14": {
-        "lean_modules": ["Perp.Props.VammGuards"],
+        "lean_modules": ["Perp.Props.VammGuards", "Perp.Props.EngineGuards"],
         "runs": lambda tier, seed: world_runs(tier, seed) + [vamm_run(tier, seed, 600, 10000)],
         "rule": WORLD_RULE, "assumptions": WORLD_ASSUMPTIONS,
     },
     "C20": {
-        "lean_modules": ["Perp.Props.VammGuards"],
+        "lean_modules": ["Perp.Props.VammGuards", "Perp.Props.EngineGuards"],
         "runs": lambda tier, seed: world_runs(tier, seed) + [vamm_run(tier, seed, 600, 10000)],
         "rule": WORLD_RULE, "assumptions": WORLD_ASSUMPTIONS,
     },
     "C02": {
-        "lean_modules": ["Perp.Props.Dispatch"],
+        "lean_modules": ["Perp.Props.EngineMoney", "Perp.Props.Dispatch"],
         "runs": lambda tier, seed: world_runs(tier, seed),
         "rule": WORLD_RULE, "assumptions": WORLD_ASSUMPTIONS,
     },
     "C04": {
-        "lean_modules": ["Perp.Props.Dispatch"],
+        "lean_modules": ["Perp.Props.EngineMoney"],
         "runs": lambda tier, seed: world_runs(tier, seed),
         "rule": WORLD_RULE, "assumptions": WORLD_ASSUMPTIONS,
     },
     "C05": {
-        "lean_modules": ["Perp.Props.Dispatch"],
+        "lean_modules": ["Perp.Props.EngineGuards", "Perp.Props.EngineMoney"],
         "runs": lambda tier, seed: world_runs(tier, seed),
         "rule": WORLD_RULE, "assumptions": WORLD_ASSUMPTIONS,
     },
     "C06": {
-        "lean_modules": ["Perp.Props.Dispatch"],
+        "lean_modules": ["Perp.Props.EngineMoney", "Perp.Props.EngineGuards"],
         "runs": lambda tier, seed: world_runs(tier, seed, q=1200, qn=8),
         "rule": WORLD_RULE, "assumptions": WORLD_ASSUMPTIONS,
     },
     "C07": {
-        "lean_modules": ["Perp.Props.Dispatch"],
+        "lean_modules": ["Perp.Props.EngineGuards"],
         "runs": lambda tier, seed: world_runs(tier, seed, q=1200, qn=8),
         "rule": WORLD_RULE, "assumptions": WORLD_ASSUMPTIONS,
     },
     "C10": {
-        "lean_modules": ["Perp.Props.Dispatch"],
+        "lean_modules": ["Perp.Props.EngineMoney"],
         "runs": lambda tier, seed: world_runs(tier, seed),
         "rule": WORLD_RULE, "assumptions": WORLD_ASSUMPTIONS,
     },
     "C12": {
-        "lean_modules": ["Perp.Props.Dispatch"],
+        "lean_modules": ["Perp.Props.EngineGuards", "Perp.Props.EngineMoney"],
         "runs": lambda tier, seed: world_runs(tier, seed),
         "rule": WORLD_RULE, "assumptions": WORLD_ASSUMPTIONS,
     },
     "C16": {
-        "lean_modules": ["Perp.Props.Dispatch"],
+        "lean_modules": ["Perp.Props.EngineGuards"],
         "runs": lambda tier, seed: world_runs(tier, seed),
         "rule": WORLD_RULE, "assumptions": WORLD_ASSUMPTIONS,
     },
     "C13": {
-        "lean_modules": ["Perp.Props.Dispatch"],
+        "lean_modules": ["Perp.Props.EngineMoney"],
         "runs": lambda tier, seed: twin_runs(tier, seed),
         "rule": WORLD_RULE + " || twin mode: two deployments identical except the collateral (cw20 vs native, 6 decimals) driven in lock-step; each native call attaches exactly what the cw20 run pulled from the caller; after every operation positions, vAMM state, engine state and per-account balance deltas are compared",
         "assumptions": WORLD_ASSUMPTIONS,
